@@ -30,7 +30,7 @@ BATCH = 40            # programs per generated module
 # tier -> list of (cfg, NProg or None, modulus or None)
 TIERS = {
     "quick": {"exh": ("PyCore_exh_q", 6), "rnd": ("PyCore_rnd_q", None), "ncalls": 12, "timeout": 1500},
-    "thorough": {"exh": ("PyCore_exh_t", 1), "rnd": ("PyCore_rnd_t", None), "ncalls": 36, "timeout": 7000},
+    "thorough": {"exh": ("PyCore_exh_t", 2), "rnd": ("PyCore_rnd_t", None), "ncalls": 36, "timeout": 7000},
 }
 
 # productions that must occur among the published programs (vacuity guard on the model side)
@@ -179,8 +179,38 @@ def build_robust(mods, jobs):
     return builds
 
 
+class _Cached(object):
+    """TLC result restored from VERIF_C01_TLC_CACHE (repeated runs on the same spec, e.g. mutation runs)"""
+
+    def __init__(self, d):
+        self.__dict__.update(d)
+        self.out = ""
+
+    def summary(self):
+        return dict(self.summ, cached=True)
+
+
 def run_tlc(cfg, env, timeout, workers, seed):
+    cache = os.environ.get("VERIF_C01_TLC_CACHE")
+    key = None
+    if cache:
+        import hashlib
+        h = hashlib.sha1()
+        for fn in ("PyCore.tla", cfg + ".cfg"):
+            with open(os.path.join(core.SPEC, fn), "rb") as f:
+                h.update(f.read())
+        h.update(json.dumps(env, sort_keys=True).encode())
+        key = os.path.join(cache, "%s_%s.json" % (cfg, h.hexdigest()[:16]))
+        if os.path.exists(key):
+            with open(key) as f:
+                return _Cached(json.load(f))
     r = core.tlc_or_die("PyCore", cfg=cfg, timeout=timeout, workers=workers, env=env)
+    if key:
+        os.makedirs(cache, exist_ok=True)
+        with open(key + ".tmp", "w") as f:
+            json.dump({"printed": r.printed, "generated": r.generated, "distinct": r.distinct, "depth": r.depth,
+                       "summ": r.summary()}, f)
+        os.replace(key + ".tmp", key)
     return r
 
 
